@@ -146,9 +146,7 @@ let show_mm = function
 
 let take k l = let rec go k l acc = if k = 0 then List.rev acc else match l with [] -> List.rev acc | x :: r -> go (k-1) r (x :: acc) in go k l []
 
-let () =
-  let file = Sys.argv.(1) in
-  let do_abs = not (Array.length Sys.argv > 2 && Sys.argv.(2) = "noabs") in
+let main_seq file do_abs =
   let ic = open_in file in
   let params = ref { p_name_max = N0; p_maxfilesize = N0; p_wtmax = N0; p_ninode = N0 } in
   let sz = ref N0 in
@@ -216,3 +214,89 @@ let () =
    with End_of_file -> ());
   let vs = List.sort_uniq compare !verfs in
   Printf.printf "DONE steps=%d verfs=%s\n" !nsteps (String.concat "," vs)
+
+
+(* ---------- C15: fresh images of many sizes against the generated layout + mkfs model ---------- *)
+let parse_rle s =
+  if s = "-" then [] else
+  List.map (fun t -> match split_on ':' t with
+      | [a; l; v] -> (int_of_string a, int_of_string l, v = "1") | _ -> failwith "rle") (split_on ',' s)
+
+let main_c15 file full =
+  let ic = open_in file in
+  let nok = ref 0 and nbad = ref 0 and nacc = ref 0 in
+  (try while true do
+      let line = input_line ic in
+      match split_on '|' line with
+      | hd :: rest ->
+        let t = List.filter (fun x -> x <> "") (split_on ' ' hd) in
+        (match t with
+         | "Z" :: szs :: acc :: fields ->
+           let sz = n_of_string szs in
+           let fs = mkFsSuper sz in
+           let macc = markAlloc_sane fs in
+           let bad = ref [] in
+           let add s = bad := s :: !bad in
+           if macc <> (acc = "1") then add (Printf.sprintf "accept:model=%b impl=%s" macc acc);
+           if acc = "1" && macc then begin
+             incr nacc;
+             (match fields with
+              | bbs :: nbb :: bis :: is :: ds :: ni :: mb :: fb :: fi :: rootblk :: ablk :: aoff :: _ ->
+                let chk name m v = if int_of_n m <> int_of_string v then add (Printf.sprintf "%s:model=%d impl=%s" name (int_of_n m) v) in
+                chk "BitmapBlockStart" (bitmapBlockStart fs) bbs; chk "NBlockBitmap" (nBlockBitmap fs) nbb;
+                chk "BitmapInodeStart" (bitmapInodeStart fs) bis; chk "InodeStart" (inodeStart fs) is;
+                chk "DataStart" (dataStart fs) ds; chk "NInode" (nInode fs) ni; chk "MaxBnum" (maxBnum fs) mb;
+                let (ab, ao) = inum2Addr fs (n_of_int 7) in
+                chk "Inum2Addr.blk" ab ablk; chk "Inum2Addr.off" ao aoff;
+                let rb = int_of_string rootblk in
+                let hasroot = rb <> 0 in
+                let ffb = int_of_n (fresh_free_blocks fs) - (if hasroot then 1 else 0) in
+                if ffb <> int_of_string fb then add (Printf.sprintf "freeblocks:model=%d impl=%s" ffb fb);
+                if int_of_n (fresh_free_inodes fs) <> int_of_string fi then add "freeinodes";
+                if hasroot && not (rb >= int_of_n (dataStart fs) && rb < int_of_n sz) then add "rootblk-outside-data";
+                if not hasroot then add "accepted-but-root-directory-not-created";
+                (match rest with
+                 | r1 :: r2 :: more ->
+                   let nbits = int_of_n (nBlockBitmap fs) * 32768 in
+                   let expect b = mk_bit fs (n_of_int b) || (hasroot && b = rb) in
+                   let pos = ref 0 in
+                   List.iter (fun (a, l, v) ->
+                       if a <> !pos then add "rle-gap";
+                       pos := a + l;
+                       let pts = if full then List.init l (fun k -> a + k) else [a; a + l - 1; a + l / 2; a + 1; a + l - 2] in
+                       List.iter (fun b -> if b >= a && b < a + l && expect b <> v then add (Printf.sprintf "bit%d:model=%b impl=%b" b (expect b) v)) pts)
+                     (parse_rle (String.trim r1));
+                   if !pos <> nbits then add "rle-length";
+                   let ipos = ref 0 in
+                   List.iter (fun (a, l, v) ->
+                       if a <> !ipos then add "irle-gap"; ipos := a + l;
+                       List.iter (fun b -> if b >= a && b < a + l && mk_ibit (n_of_int b) <> v then add (Printf.sprintf "ibit%d" b)) [a; a + l - 1])
+                     (parse_rle (String.trim r2));
+                   (match more with
+                    | f :: _ ->
+                      (match List.filter (fun x -> x <> "") (split_on ' ' f) with
+                       | used :: freed :: _ :: freeafter :: _ ->
+                         (* every free block could be allocated, and deleting everything frees them all again *)
+                         if int_of_string used <> ffb then add (Printf.sprintf "fill:allocated=%s of %d" used ffb);
+                         if int_of_string freeafter <> ffb then add (Printf.sprintf "fill:free-after-delete=%s of %d" freeafter ffb);
+                         ignore freed
+                       | _ -> ())
+                    | [] -> ())
+                 | _ -> add "no-bitmaps")
+              | _ -> add "short-line")
+           end;
+           (* the boolean twins of the theorems, on the regenerated model *)
+           if not (layout_ok_b sz) then add "layout_ok_b=false";
+           if !bad = [] then (incr nok; Printf.printf "Z %s OK acc=%s\n" szs acc)
+           else (incr nbad; Printf.printf "Z %s BAD %s\n" szs (String.concat " " (List.rev !bad)))
+         | _ -> ())
+      | [] -> ()
+    done with End_of_file -> ());
+  Printf.printf "DONE ok=%d bad=%d accepted=%d\n" !nok !nbad !nacc
+
+let () =
+  match Array.to_list Sys.argv with
+  | _ :: "c15" :: file :: rest -> main_c15 file (rest = ["full"])
+  | _ :: "seq" :: file :: rest -> main_seq file (rest <> ["noabs"])
+  | _ :: file :: rest -> main_seq file (rest <> ["noabs"])
+  | _ -> prerr_endline "usage: drv <mode> <file>"; exit 2
